@@ -78,7 +78,7 @@ def malformed_specs(chars):
 
 def version_wellformed(chars):
     """chars follow `OPENQASM<ws>`: optional further whitespace, then major[.minor] followed by ';' or whitespace"""
-    num = rx.seq(rx.star(rx.ch("_")), DIG, rx.star(DIG_))
+    num = rx.seq(DIG, rx.star(DIG))          # VersionSpecifier: [0-9]+ ('.' [0-9]+)?  - no underscores
     return rx.starts_with(rx.seq(rx.star(rx.cls(is_ws)), num, rx.opt(rx.seq(rx.ch("."), num))), chars,
                           lambda e: z3.Or(e == ord(";"), is_ws(e))) if False else _version_ok(chars, num)
 
